@@ -42,7 +42,7 @@ def run(ctx, replay):
             json.dump({"property": "C18", "kind": "listing", "invariants": sorted(set(names)), "parsenotes": o["parsenotes"]},
                       open(os.path.join(d, "meta.json"), "w"), indent=1)
             json.dump([o], open(os.path.join(d, "obs.json"), "w"))
-            rules = "; ".join("%s -> %s" % (ru["lhs"], " ".join(ru["rhs"])) for ru in o["g"]["rules"][1:])
+            rules = "; ".join("%s -> %s" % (ru["lhs"], " ".join(ru["rhs"] or [])) for ru in o["g"]["rules"][1:])
             ctx.violation(key, d, "grammar %s: listing/diagram disagrees with the tables of the same run: %s\n%s\n%s" % (
                 oid, ",".join(sorted(set(names))), rules, o["parsenotes"][:2]))
     ctx.cov["evaluations"] += total
